@@ -54,6 +54,9 @@ func (e *Engine) execInstr(f *frame, ins ssa.Instruction) {
 		f.vals[x] = e.convert(f, x)
 	case *ssa.Extract:
 		t := e.operand(f, x.Tuple)
+		if x.Index >= len(t.Tup) {
+			bail("tuple result of %s has no component %d (call did not return a value in %s)", x.Tuple.String(), x.Index, f.fn.Name())
+		}
 		f.vals[x] = t.Tup[x.Index]
 	case *ssa.Field:
 		v := e.operand(f, x.X)
